@@ -30,7 +30,7 @@ def gen_schedule(rng):
     gran = rng.choice(["task", "task", "line"])
     p = 0.0 if gran == "task" else rng.choice([0.01, 0.05])
     return {"mode": "prng", "seed": rng.randrange(1 << 40), "workers": rng.choice([1, 2, 4, 8]), "granularity": gran,
-            "preempt_p": p, "policy": rng.choice(list(POLICIES)), "pct_d": rng.randint(1, 3), "hot_boost": 0.0, "faults": {}}
+            "preempt_p": p, "policy": rng.choice(list(POLICIES)), "pct_d": rng.randint(1, 3), "hot_boost": 0.0, "faults": rng.choice([{}, {}, {}, {"F10": 0.5}])}
 
 
 def generate(seed: int, tier: str):
